@@ -119,6 +119,14 @@ Print Assumptions C13_pseudo_lookup.
 Theorem C13_supported_iff : forall g pm u, char_supported g pm u = true <-> (g <> 0 \/ find_pseudo pm u <> 0).
 Proof. exact char_supported_iff. Qed.
 Print Assumptions C13_supported_iff.
+(* "... and hence the initial glyph of each slot": the text reader (its loop regenerated as a whole, Gen/GenPseudo.v) makes one slot per
+   character before the first NUL -- a prefix of the text, none of them NUL -- and the i-th slot starts with the initial glyph of the i-th. *)
+Theorem C13_initial_glyph_of_each_slot : forall cmapf pm us,
+  (exists rest, us = upto_nul us ++ rest /\ (rest = [] \/ hd 1 rest = 0)) /\ Forall (fun u => u <> 0) (upto_nul us) /\
+  length (text_glyphs cmapf pm us) = length (upto_nul us) /\
+  (forall i u, nth_error (upto_nul us) i = Some u -> nth_error (text_glyphs cmapf pm us) i = Some (initial_glyph (cmapf u) pm u)).
+Proof. intros. split; [apply upto_nul_prefix|]. split; [apply upto_nul_nonzero|]. apply text_glyphs_spec. Qed.
+Print Assumptions C13_initial_glyph_of_each_slot.
 (* tie A: the key of a pseudo entry is wide enough for every Unicode scalar value (nothing is truncated before the comparison) *)
 Theorem C13_pseudo_key_tied : forall u, u < 0x110000 -> u mod 2 ^ GenPseudo.pseudo_uid_bits = u.
 Proof. exact gen_pseudo_key_holds_every_scalar. Qed.
